@@ -20,8 +20,8 @@ TRUSTED = [
     "modelled not verified: torch.nn.functional.grid_sample (Model/Sampler.v), float rounding (float32 grid attributes)",
 ]
 ASSUMPTIONS = [
-    "FlowFields.sample: the whole method (data resampling + vector re-scaling) is modelled and tied by correspondence; the theorem "
-    "covers the vector re-scaling (commutation of the resampling itself with channel-mixing representation changes is not proved)",
+    "FlowFields.sample: the whole method (data resampling + vector re-scaling) is modelled (sample_item), tied by correspondence, and "
+    "proved to commute with representation changes for D in {2,3}",
     "the image warped by warp_image lives on the same lattice as the flow field (as the code assumes)",
 ]
 AXN = ["GRID", "CUBE", "CUBE_CORNERS", "WORLD"]
@@ -248,7 +248,9 @@ MANIFEST_ENTRY = {
             "Gen/GridT.v regenerated by tracing; hand model of data/flow.py run in Coq against FlowFields / FlowField axes (16 pairs, shared "
             "/ per-item grids), exp, warp_image, sample's vector re-scaling.",
     "note": "Known finding: "
-            "normalize_grid / denormalize_grid(align_corners=False) are half a sample off the grid's GRID<->CUBE point map. Partial: the sample theorem covers the vector re-scaling (D in {2,3}); that "
-            "the data resampling commutes with channel-mixing representation changes (linearity of sampling) is not proved -- the whole "
-            "method is modelled (sample_item) and tied by correspondence and the implementation-side evaluation. Trusted: Coq kernel, vm_compute, F.grid_sample model, symtorch, float rounding.",
+            "normalize_grid / denormalize_grid(align_corners=False) are half a sample off the grid's GRID<->CUBE point map. FlowFields.sample as a whole (data resampling at the mapped points, zeros or border padding, + vector re-scaling) "
+            "is proved to commute with every representation change (C10_sample_commutes_with_axes_2d/3d: transform_vectors is a "
+            "constant matrix per item -- proved for the 16 generated closed forms -- and multilinear sampling is linear per channel); the "
+            "generated closed forms of transform_vectors are proved equal to the specified maps through index space "
+            "(C10_transform_vectors_closed_forms). Trusted: Coq kernel, vm_compute, F.grid_sample model, symtorch, float rounding.",
 }
